@@ -51,7 +51,7 @@ func (c Cfg) String() string {
 }
 
 var (
-	protoSels = []string{"nil", "none", "all", "second", "slice-small", "slice-big", "custom"}
+	protoSels = []string{"nil", "none", "all", "second", "slice-small", "slice-big", "custom", "equal"}
 	extSels   = []string{"nil", "extension-all", "extension-none", "extension-custom", "negotiate-accept", "negotiate-decline", "negotiate-error", "negotiate-wsflate"}
 	hdrKinds  = []string{"nil", "string", "bytes", "func", "http", "bytes-large", "func-large", "http-large"}
 	rejects   = []string{"", "OnRequest", "OnHost", "OnHeader", "OnBeforeUpgrade"}
@@ -88,6 +88,8 @@ func protoSelector(kind string) func(string) bool {
 		return ws.SelectFromSlice([]string{"chat.v2", "json"})
 	case "slice-big":
 		return ws.SelectFromSlice(bigSlice)
+	case "equal":
+		return ws.SelectEqual("chat.v2")
 	}
 	return nil
 }
